@@ -424,7 +424,7 @@ func oddities() []string {
 	}
 	for _, kv := range []string{`"title":""`, `"enum":null`, `"enum":[]`, `"uniqueItems":false`, `"deprecated":false`, `"required":[]`, `"required":null`, `"const":null`, `"default":null`, `"examples":[]`, `"allOf":[]`, `"anyOf":[]`, `"oneOf":[]`, `"prefixItems":[]`,
 		`"$defs":{}`, `"properties":{}`, `"patternProperties":{}`, `"dependentRequired":{}`, `"dependentSchemas":{}`, `"type":[]`, `"type":["integer"]`, `"items":[]`, `"dependencies":{}`, `"dependencies":{"a":[]}`, `"dependencies":{"a":[],"b":{}}`, `"dependencies":{"a":["b"],"b":true,"c":false}`,
-		`"$vocabulary":{}`, `"$comment":""`, `"format":""`, `"pattern":""`, `"$id":""`, `"$ref":""`, `"minLength":null`, `"not":null`, `"items":null`, `"type":null`, `"const":[null]`, `"default":{"a":null}`, `"examples":[null]`, `"enum":[null,[],{}]`} {
+		`"$vocabulary":{}`, `"$comment":""`, `"format":""`, `"pattern":""`, `"$id":""`, `"$ref":""`, `"minLength":null`, `"not":null`, `"type":null`, `"const":[null]`, `"default":{"a":null}`, `"examples":[null]`, `"enum":[null,[],{}]`} {
 		out = append(out, `{`+kv+`}`, `{"type":"object",`+kv+`}`, `{"properties":{"a":{`+kv+`}},"required":["a"]}`)
 	}
 	for _, v := range []string{`1`, `"s"`, `null`, `true`, `[1,{"a":null}]`, `{"a":{"b":[]}}`, `1.0`, `1e2`} {
